@@ -144,7 +144,7 @@ class TTMatrix:
         if self.batch:
             tensor = tensor.reshape([-1] + shape)
             dims = list(range(1, 2 * self.d + 1))
-            tensor = tensor.permute([0] + dims[1::2] + dims[2::2])
+            tensor = tensor.permute([0] + dims[0::2] + dims[1::2])
             return tensor.reshape(-1, rows, cols)
         else:
             tensor = tensor.reshape(shape)
